@@ -294,3 +294,182 @@ theorem ratZeroTest_lawful : ∀ x : Rat, ZeroTest.isZero x = true → x = 0 := 
 example : (solveRidge (R := Rat)
     (accumulate 0 (Gram.zero 2 1) [[(withBias #v[1], #v[2]), (withBias #v[3], #v[1])]]) (1/2)).isSome = true := by
   decide +kernel
+
+/-! ### The offline life of the node: partial fits, assignments of `ridge`, `fit()` (model: `RidgeNode`, `ridgeStep`) -/
+
+section
+variable {R : Type} [Add R] [Mul R] [Sub R] [Zero R] [One R] [Div R] [ZeroTest R] [Inhabited R] {p o : Nat}
+
+/-- assignments of `ridge` never touch the buffers -/
+theorem prepGram_filter (g : Gram R p o) (ops : List (RidgeOp R p o)) :
+    prepGram g ops = prepGram g (ops.filter RidgeOp.isData) := by
+  induction ops generalizing g with
+  | nil => rfl
+  | cons op ops ih =>
+    cases op with
+    | partialFit w s =>
+      rw [List.filter_cons_of_pos (by rfl)]
+      simp only [prepGram]
+      exact ih _
+    | setRidge lam =>
+      rw [List.filter_cons_of_neg (by simp [RidgeOp.isData])]
+      simp only [prepGram]
+      exact ih _
+    | fit =>
+      rw [List.filter_cons_of_neg (by simp [RidgeOp.isData])]
+      simp only [prepGram]
+      exact ih _
+    | fitData w s =>
+      rw [List.filter_cons_of_neg (by simp [RidgeOp.isData])]
+      simp only [prepGram]
+      exact ih _
+
+theorem prepGram_noData (g : Gram R p o) (ops : List (RidgeOp R p o)) (h : ops.any RidgeOp.isData = false) :
+    prepGram g ops = g := by
+  rw [prepGram_filter]
+  have : ops.filter RidgeOp.isData = [] := by
+    rw [List.filter_eq_nil_iff]
+    intro x hx
+    have := List.any_eq_false.mp h x hx
+    simpa using this
+  rw [this]; rfl
+
+theorem ridgeRun_prep (n : RidgeNode R p o) (ops : List (RidgeOp R p o)) (hp : ∀ op ∈ ops, op.isPrep = true) :
+    ridgeRun n ops =
+      { ridge := lastRidge n.ridge ops,
+        buf := if ops.any RidgeOp.isData then some (prepGram (n.buf.getD (Gram.zero p o)) ops) else n.buf,
+        W := n.W } := by
+  induction ops generalizing n with
+  | nil => simp [ridgeRun, lastRidge]
+  | cons op ops ih =>
+    have hp' : ∀ op ∈ ops, op.isPrep = true := fun x hx => hp x (List.mem_cons_of_mem _ hx)
+    have h0 := hp op (List.mem_cons_self ..)
+    unfold ridgeRun at ih ⊢
+    rw [List.foldl_cons, ih _ hp']
+    cases op with
+    | partialFit w s =>
+      by_cases ha : ops.any RidgeOp.isData = true
+      · simp [ridgeStep, RidgeNode.accum, lastRidge, prepGram, RidgeOp.isData, ha]
+      · have ha' : ops.any RidgeOp.isData = false := by simpa using ha
+        simp only [ridgeStep, RidgeNode.accum, lastRidge, prepGram, RidgeOp.isData, List.any_cons, Bool.true_or,
+          if_true, ha', Bool.false_eq_true, if_false, Option.getD_some]
+        rw [prepGram_noData _ _ ha']
+    | setRidge lam =>
+      simp [ridgeStep, lastRidge, prepGram, RidgeOp.isData]
+    | fit => simp [RidgeOp.isPrep] at h0
+    | fitData w s => simp [RidgeOp.isPrep] at h0
+
+/-- **The life-cycle theorem.** From a node without buffers, after ANY interleaving of partial fits and assignments
+    of `ridge` (with at least one partial fit), `fit()` installs the certified solution for the buffers accumulated
+    over exactly those partial fits, in order, and the value of `ridge` at the moment of the solve — and leaves no
+    buffers behind. The values `ridge` had while the data was being accumulated do not appear. -/
+theorem C04_lifecycle (n : RidgeNode R p o) (hn : n.buf = none) (ops : List (RidgeOp R p o))
+    (hp : ∀ op ∈ ops, op.isPrep = true) (hd : ops.any RidgeOp.isData = true) :
+    ridgeRun n (ops ++ [.fit]) =
+      { ridge := lastRidge n.ridge ops, buf := none,
+        W := solveRidge (prepGram (Gram.zero p o) ops) (lastRidge n.ridge ops) } := by
+  unfold ridgeRun
+  rw [List.foldl_append]
+  have := ridgeRun_prep n ops hp
+  unfold ridgeRun at this
+  rw [this, hd, hn]
+  simp [ridgeStep, RidgeNode.solve]
+
+/-- `fit(X, Y)` is a partial fit followed by `fit()` -/
+theorem C04_fitData_eq (n : RidgeNode R p o) (w : Nat) (s : List (List (Vec R p × Vec R o))) :
+    ridgeStep n (.fitData w s) = ridgeRun n [.partialFit w s, .fit] := rfl
+
+/-- **λ enters at the solve only**: two preparations that hand over the same data in the same order and end with the
+    same `ridge` give the same weights, whatever `ridge` was in between -/
+theorem C04_lambda_at_solve_only (n m : RidgeNode R p o) (hn : n.buf = none) (hm : m.buf = none)
+    (ops ops' : List (RidgeOp R p o))
+    (hp : ∀ op ∈ ops, op.isPrep = true) (hp' : ∀ op ∈ ops', op.isPrep = true)
+    (hd : ops.any RidgeOp.isData = true)
+    (hdata : ops.filter RidgeOp.isData = ops'.filter RidgeOp.isData)
+    (hl : lastRidge n.ridge ops = lastRidge m.ridge ops') :
+    (ridgeRun n (ops ++ [.fit])).W = (ridgeRun m (ops' ++ [.fit])).W := by
+  have hd' : ops'.any RidgeOp.isData = true := by
+    have h1 : (ops.filter RidgeOp.isData).any RidgeOp.isData = true := by
+      simpa [List.any_filter] using hd
+    rw [hdata] at h1
+    simpa [List.any_filter] using h1
+  rw [C04_lifecycle n hn ops hp hd, C04_lifecycle m hm ops' hp' hd']
+  simp only
+  rw [prepGram_filter _ ops, prepGram_filter _ ops', hdata, hl]
+
+/-- partial fits sequence by sequence = one partial fit of the whole list -/
+theorem C04_partial_chunks (g : Gram R p o) (w : Nat) (chunks : List (List (List (Vec R p × Vec R o)))) :
+    prepGram g (chunks.map (RidgeOp.partialFit w)) = accumulate w g chunks.flatten := by
+  induction chunks generalizing g with
+  | nil => simp [prepGram, accumulate]
+  | cons c cs ih =>
+    simp only [List.map_cons, prepGram, List.flatten_cons]
+    rw [ih]
+    simp [accumulate, List.foldl_append]
+
+/-- **Session isolation for Ridge**: what a later training session installs does not depend on anything an earlier,
+    completed session did (its data, its λ, its weights): after any completed fit the node has no buffers, and the
+    next session starts from zero buffers -/
+theorem C04_refit_forgets (n : RidgeNode R p o) (w0 : Nat) (s0 : List (List (Vec R p × Vec R o)))
+    (ops : List (RidgeOp R p o)) (hp : ∀ op ∈ ops, op.isPrep = true) (hd : ops.any RidgeOp.isData = true) :
+    (ridgeRun n (.fitData w0 s0 :: (ops ++ [.fit]))).W
+      = solveRidge (prepGram (Gram.zero p o) ops) (lastRidge n.ridge ops) := by
+  have h1 : ridgeRun n (.fitData w0 s0 :: (ops ++ [.fit])) = ridgeRun (ridgeStep n (.fitData w0 s0)) (ops ++ [.fit]) := rfl
+  have hb : (ridgeStep n (.fitData w0 s0)).buf = none := by
+    simp [ridgeStep, RidgeNode.accum, RidgeNode.solve]
+  have hr : (ridgeStep n (.fitData w0 s0)).ridge = n.ridge := by
+    simp [ridgeStep, RidgeNode.accum, RidgeNode.solve]
+  rw [h1, C04_lifecycle _ hb ops hp hd, hr]
+
+theorem solveRidge_certified (g : Gram R p o) (lam : R) (W : Mat R p o) (h : solveRidge g lam = some W) :
+    certify g lam W = true := by
+  unfold solveRidge at h
+  simp only at h
+  split at h
+  · exact absurd h (by simp)
+  · split at h
+    · exact absurd h (by simp)
+    · split at h
+      · cases h; assumption
+      · exact absurd h (by simp)
+
+end
+
+section
+variable {R : Type} [Field R] [LinearOrder R] [IsStrictOrderedRing R] [ZeroTest R] [Inhabited R]
+
+/-- **C04 over the whole offline life of the node.** Hand the data over in any number of partial fits (common warm-up
+    `w`), assign `ridge` as often as you like in between, call `fit()`: if the value of `ridge` at that moment is
+    positive, the installed weights are the unique minimiser of the regularised cost, *for that value*, over the retained
+    timesteps of everything handed over. -/
+theorem C04_lifecycle_optimal (hz : ∀ x : R, ZeroTest.isZero x = true → x = 0) {p o : Nat}
+    (n : RidgeNode R p o) (hn : n.buf = none) (ops : List (RidgeOp R p o)) (hp : ∀ op ∈ ops, op.isPrep = true)
+    (w : Nat) (chunks : List (List (List (Vec R p × Vec R o)))) (hne : chunks ≠ [])
+    (hdata : ops.filter RidgeOp.isData = chunks.map (RidgeOp.partialFit w))
+    (hlam : 0 < lastRidge n.ridge ops) (W : Mat R p o) (hW : (ridgeRun n (ops ++ [.fit])).W = some W)
+    (V : Matrix (Fin p) (Fin o) R) :
+    let lam := lastRidge n.ridge ops
+    let S := retained w chunks.flatten
+    J lam (rowsX S) (rowsY S) (toMatrix W) ≤ J lam (rowsX S) (rowsY S) V
+      ∧ (J lam (rowsX S) (rowsY S) V = J lam (rowsX S) (rowsY S) (toMatrix W) → V = toMatrix W) := by
+  intro lam S
+  have hd : ops.any RidgeOp.isData = true := by
+    have h1 : (ops.filter RidgeOp.isData).any RidgeOp.isData = true := by
+      rw [hdata]
+      cases chunks with
+      | nil => exact absurd rfl hne
+      | cons c cs => simp [RidgeOp.isData]
+    simpa [List.any_filter] using h1
+  rw [C04_lifecycle n hn ops hp hd] at hW
+  simp only at hW
+  rw [prepGram_filter, hdata, C04_partial_chunks] at hW
+  exact C04_fit_optimal hz w chunks.flatten lam hlam W (solveRidge_certified _ _ _ hW) V
+
+end
+
+/-- non-vacuity: data in two partial fits, `ridge` 5 while accumulating and 1/2 at the solve; the installed weight
+    solves (XXT + 1/2)·W = YXT with XXT = 1·1 + 2·2 = 5 and YXT = 1·2 + 2·3 = 8, i.e. W = 16/11 — not 8/10 -/
+example : (ridgeRun (R := Rat) (p := 1) (o := 1) { ridge := 5, buf := none, W := none }
+    [.partialFit 0 [[(#v[1], #v[2])]], .setRidge 7, .partialFit 0 [[(#v[2], #v[3])]], .setRidge (1/2), .fit]).W
+    = some #v[#v[16/11]] := by decide +kernel
+
